@@ -39,13 +39,44 @@ func comparePreRelease[T1, T2 constraint.ParserInput](shorter T1, longer T2) int
 	// compare byte by byte: indexing the runes of longer with byte offsets of shorter panics on non-ASCII input
 	for i := 0; i < len(s); i++ {
 		if s[i] != l[i] {
-			return comparePreReleaseSuffix(s[i:], l[i:])
+			// precedence is decided by the dot separated identifiers holding the first difference
+			start := strings.LastIndexByte(s[:i], '.') + 1
+			return compareIdentifiers(identifier(s[start:]), identifier(l[start:]), i-start)
 		}
 	}
 	if len(s) == len(l) {
 		return 0
 	}
 	return 1
+}
+
+// identifier returns the leading dot separated identifier of s.
+func identifier(s string) string {
+	if end := strings.IndexByte(s, '.'); end >= 0 {
+		return s[:end]
+	}
+	return s
+}
+
+// compareIdentifiers compares two identifiers which differ at index diff for the first time:
+// numeric identifiers are compared numerically and have lower precedence than alphanumeric ones.
+func compareIdentifiers(shorter string, longer string, diff int) int {
+	ns, nl := digitsOrEmpty.MatchString(shorter), digitsOrEmpty.MatchString(longer)
+	switch {
+	case ns && nl:
+		if len(shorter) != len(longer) {
+			if len(shorter) < len(longer) {
+				return 1
+			}
+			return -1
+		}
+		return -strings.Compare(shorter, longer)
+	case ns:
+		return 1
+	case nl:
+		return -1
+	}
+	return comparePreReleaseSuffix(shorter[diff:], longer[diff:])
 }
 
 func comparePreReleaseSuffix(shorter string, longer string) int {
